@@ -2326,7 +2326,7 @@ func (in *Interp) switchID(sw *ast.SwitchStmt) string {
 	return "?"
 }
 
-var structField0Re = regexp.MustCompile(`Underlying\(\)\[0\]$`)
+var structField0Re = regexp.MustCompile(`(Underlying\(\)|^typs\[\d+\])\[0\]$`)
 var structFieldRe = regexp.MustCompile(`\[\d+\]$`)
 var tupleElemRe = regexp.MustCompile(`\.(Params|Results)\(\)\[\d+\]$`)
 
